@@ -341,6 +341,9 @@ class Verifier:
         # specifications are evaluated without forking where possible; contracts whose quantified clauses the
         # solvers only manage path by path switch this off (``spec_total = False``)
         m.spec_total = bool(getattr(ccls, "spec_total", True))
+        m.calculus = bool(getattr(ccls, "calculus", False))
+        m.total_ops = bool(getattr(ccls, "total_ops", False))
+        m.repo_stubs = set(getattr(ccls, "stubs", ()) or ())
         m.concretize_ranges = not m.modular
         try:
             f = self.target_func(m, ccls.target)
@@ -510,6 +513,15 @@ class Verifier:
 def solve(pc, goal, timeout_ms, want_model=True, fallback=True):
     """-> (status, model|None, seconds, backend)   status: proved | refuted | unknown"""
     t0 = time.time()
+    from . import analytic
+
+    if analytic.contains_analytic(goal):
+        # derivative / closed-form claims are free predicates for z3: they are decided by the analytic back end only
+        if not fallback:
+            return "unknown", None, 0.0, "sympy"
+        st, mdl, dt, be, info = analytic.solve(pc, goal, timeout_ms)
+        solve.last_info = info
+        return st, mdl, dt, be
     s = z3.Solver()
     s.set("timeout", timeout_ms)
     for c in pc:
@@ -604,8 +616,11 @@ def discharge(res, timeout_ms=20000, unit_budget_s=None):
         if unknown_ct.get(ob.name, 0) >= 2 or (time.time() - t0) > unit_budget_s:
             ob.status, ob.backend = "unknown", "budget"
             continue
+        solve.last_info = None
         st, model, dt, be = solve(ob.pc, ob.goal, timeout_ms)
         record(ob, st, model, dt, be)
+        if solve.last_info:
+            ob.solver_info = solve.last_info
         if st == "unknown":
             unknown_ct[ob.name] = unknown_ct.get(ob.name, 0) + 1
     return res
